@@ -65,6 +65,8 @@ class SN(ASTNode):
     p: str = field(default="", metadata={"serialize": _ser_p})
     c: ASTNode | None = None
     items: tuple[ASTNode, ...] = ()
+    Tag: str = "t"       # a field name that sorts BEFORE "__type"
+    _Hidden__x: int = 0  # what a name-mangled private attribute looks like
 
 
 class IntShift(Dialect):
@@ -273,7 +275,7 @@ def execute(rec, clean, inst, root, seqname):
             errs = set()
             walk_check(decode(fmt, res), opt, errs)
             for e in sorted(errs):
-                rec.violation(f"C16|per-call|{opt}|{e.split(':')[0]}", case, f"{name}: {e}")
+                rec.violation(f"C16|per-call|{opt}|{e.split(':')[0]}|{fmt}", case, f"{name}: {e}")
         rec.outcome(f"ser:{'raised' if raised else 'ok'}")
     else:
         # deserialization descends only when the originals are not registered
